@@ -82,6 +82,13 @@ class Siblings:
                                 if isinstance(g, ast.comprehension) and dotted(g.iter) in names:
                                     sel_pos = names.index(dotted(g.iter))
         if sel_pos is None:
+            # export does not project by a component any more (that is for C01 R5 / the interpreted export to judge): the
+            # selection is the component compile_ast documents as third (frame, name map, selection, grouping)
+            for st in ast.walk(exp):
+                if isinstance(st, ast.Assign) and isinstance(st.value, ast.Call) and dotted(st.value.func) == "compile_ast" and isinstance(st.targets[0], ast.Tuple):
+                    names = [dotted(e) for e in st.targets[0].elts]
+                    sel_pos = names.index("select") if "select" in names else (2 if len(names) >= 3 else None)
+        if sel_pos is None:
             raise AnalysisError("A4: cannot find which result of compile_ast PolarsImpl.export selects by")
         # PART is the component the GroupBy branch assigns
         part_pos = None
